@@ -283,6 +283,12 @@ impl<'a> RecordBuilder<'a> {
     }
 
     pub fn set_timestamp(&mut self, col_idx: usize, micros: i64) -> Result<()> {
+        // a timestamp without zone stored into a TIMESTAMPTZ column is taken as UTC
+        if let Some(col) = self.schema.column(col_idx) {
+            if col.data_type == crate::records::types::DataType::TimestampTz {
+                return self.set_timestamptz(col_idx, micros, 0);
+            }
+        }
         self.set_fixed_bytes(col_idx, &micros.to_le_bytes())?;
         Ok(())
     }
